@@ -325,6 +325,66 @@ func vFuse(kind int, vec, txt map[uint32]float64, origin int) map[uint32]float64
 	return out
 }
 
+// vC05NearDuplicates: documents whose vectors are one or two float32 ulps apart and whose
+// texts are equal. Their fused scores (float64) differ in bits that a float32 does not
+// have once the text score has pushed the sum into a higher binade. Results are ordered
+// by the score they REPORT, exactly: res[i].Score >= res[i+1].Score, for every fusion,
+// k and query.
+func vC05NearDuplicates(c *vCtx) {
+	cfgS := "hybrid near-duplicates"
+	f, _ := NewFlatIndex(2, Euclidean)
+	idx := NewHybridSearchIndex(f, NewBM25SearchIndex(), NewRoaringMetadataIndex())
+	var hist []string
+	next := float32(1)
+	// ids ascending with DESCENDING distance and the other way round, interleaved
+	order := []uint32{4, 1, 6, 2, 5, 3, 8, 7}
+	for i, id := range order {
+		v := []float32{next, 0}
+		next = math.Nextafter32(next, 2)
+		text := "apple apple banana cherry"
+		if i%4 == 3 {
+			text = "apple banana"
+		}
+		if err := idx.AddWithID(id, v, text, map[string]interface{}{"s": "x"}); err != nil {
+			c.Violation("add-failed", "near-duplicates", cfgS, hist, err.Error())
+			return
+		}
+		hist = append(hist, fmt.Sprintf("AddWithID(%d,[%v 0],%q)", id, v[0], text))
+	}
+	c.Transitions += int64(len(order))
+	for _, q := range [][]float32{{0, 0}, {2, 0}, {1, 0}, {-3, 0}} {
+		for _, text := range []string{"apple", "apple banana cherry", "banana"} {
+			for fu := 0; fu <= 4; fu++ {
+				for _, k := range []int{3, 8, 20} {
+					c.Evaluations++
+					res, err := idx.NewSearch().WithVector(vCopyVec(q)).WithText(text).WithK(k).WithFusion(vFusionOf(fu)).Execute()
+					if err != nil {
+						c.Violation("search-error", "near-duplicates", cfgS, hist, err.Error())
+						continue
+					}
+					for i := 1; i < len(res); i++ {
+						if res[i-1].Score < res[i].Score {
+							c.Violation("not-descending", "exactly:near-duplicates", cfgS, hist, fmt.Sprintf("vec=%v text=%q fusion=%d k=%d: rank %d has score %.17g, rank %d has %.17g (ids %d, %d)", q, text, fu, k, i-1, res[i-1].Score, i, res[i].Score, res[i-1].ID, res[i].ID))
+							break
+						}
+					}
+					seen := map[uint32]bool{}
+					for _, r := range res {
+						if seen[r.ID] {
+							c.Violation("duplicate-id", "near-duplicates", cfgS, hist, fmt.Sprint(res))
+						}
+						seen[r.ID] = true
+					}
+					c.Nontrivial(fmt.Sprintf("neardup|%v|%s|%d|%d", q, text, fu, k))
+				}
+			}
+		}
+	}
+	c.Traces++
+	c.NewState(cfgS)
+	c.Bound = "8 near-duplicate documents x 4 query vectors x 3 texts x 5 fusions x 3 k"
+}
+
 func vFusionOf(kind int) Fusion {
 	switch kind {
 	case 0:
@@ -767,6 +827,7 @@ func init() {
 					}})
 				}
 			}
+			sh = append(sh, vShard{Name: "near-duplicates", Run: vC05NearDuplicates})
 			pn := 16
 			if tier == "thorough" {
 				pn = 40
@@ -783,6 +844,11 @@ func init() {
 			return sh
 		},
 		Replay: func(c *vCtx, v *vViolation) bool {
+			if v.Config == "hybrid near-duplicates" {
+				vC05NearDuplicates(c)
+				_, ok := c.viol[v.Sig()]
+				return ok
+			}
 			if strings.HasPrefix(v.Config, "hybrid passthrough ") {
 				vC05Passthrough(c, vParseVecCfg(strings.TrimPrefix(v.Config, "hybrid passthrough ")).Kind, 40)
 				_, ok := c.viol[v.Sig()]
